@@ -638,6 +638,9 @@ func (x Expr) Get(data any) (results []any) {
 							results = append(results, tv[i])
 						}
 					} else {
+						if end <= start { // an empty range selects nothing
+							continue
+						}
 						end = start + (end-start-1)/step*step
 						for i := end; start <= i; i -= step {
 							v = tv[i]
@@ -665,6 +668,9 @@ func (x Expr) Get(data any) (results []any) {
 							results = append(results, tv[i])
 						}
 					} else {
+						if start <= end { // an empty range selects nothing
+							continue
+						}
 						end = start - (start-end-1)/step*step
 						for i := end; i <= start; i -= step {
 							v = tv[i]
@@ -707,6 +713,9 @@ func (x Expr) Get(data any) (results []any) {
 							results = append(results, tv.ValueAtIndex(i))
 						}
 					} else {
+						if end <= start { // an empty range selects nothing
+							continue
+						}
 						end = start + (end-start-1)/step*step
 						for i := end; start <= i; i -= step {
 							v = tv.ValueAtIndex(i)
@@ -734,6 +743,9 @@ func (x Expr) Get(data any) (results []any) {
 							results = append(results, tv.ValueAtIndex(i))
 						}
 					} else {
+						if start <= end { // an empty range selects nothing
+							continue
+						}
 						end = start - (start-end-1)/step*step
 						for i := end; i <= start; i -= step {
 							v = tv.ValueAtIndex(i)
@@ -775,6 +787,9 @@ func (x Expr) Get(data any) (results []any) {
 							results = append(results, tv[i])
 						}
 					} else {
+						if end <= start { // an empty range selects nothing
+							continue
+						}
 						end = start + (end-start-1)/step*step
 						for i := end; start <= i; i -= step {
 							v = tv[i]
@@ -793,6 +808,9 @@ func (x Expr) Get(data any) (results []any) {
 							results = append(results, tv[i])
 						}
 					} else {
+						if start <= end { // an empty range selects nothing
+							continue
+						}
 						end = start - (start-end-1)/step*step
 						for i := end; i <= start; i -= step {
 							v = tv[i]
@@ -1474,6 +1492,9 @@ func (x Expr) FirstFound(data any) (any, bool) {
 					if int(fi) == len(x)-1 && start < end { // last one
 						return tv[start], true
 					}
+					if end <= start { // an empty range selects nothing
+						continue
+					}
 					end = start + (end-start-1)/step*step
 					for i := end; start <= i; i -= step {
 						v = tv[i]
@@ -1497,6 +1518,9 @@ func (x Expr) FirstFound(data any) (any, bool) {
 					}
 					if int(fi) == len(x)-1 && end < start { // last one
 						return tv[start], true
+					}
+					if start <= end { // an empty range selects nothing
+						continue
 					}
 					end = start - (start-end-1)/step*step
 					for i := end; i <= start; i -= step {
@@ -1537,6 +1561,9 @@ func (x Expr) FirstFound(data any) (any, bool) {
 					if int(fi) == len(x)-1 && start < end { // last one
 						return tv.ValueAtIndex(start), true
 					}
+					if end <= start { // an empty range selects nothing
+						continue
+					}
 					end = start + (end-start-1)/step*step
 					for i := end; start <= i; i -= step {
 						v = tv.ValueAtIndex(i)
@@ -1560,6 +1587,9 @@ func (x Expr) FirstFound(data any) (any, bool) {
 					}
 					if int(fi) == len(x)-1 && end < start { // last one
 						return tv.ValueAtIndex(start), true
+					}
+					if start <= end { // an empty range selects nothing
+						continue
 					}
 					end = start - (start-end-1)/step*step
 					for i := end; i <= start; i -= step {
@@ -1599,6 +1629,9 @@ func (x Expr) FirstFound(data any) (any, bool) {
 					if int(fi) == len(x)-1 && start < end { // last one
 						return tv[start], true
 					}
+					if end <= start { // an empty range selects nothing
+						continue
+					}
 					end = start + (end-start-1)/step*step
 					for i := end; start <= i; i -= step {
 						v = tv[i]
@@ -1613,6 +1646,9 @@ func (x Expr) FirstFound(data any) (any, bool) {
 					}
 					if int(fi) == len(x)-1 && end < start { // last one
 						return tv[start], true
+					}
+					if start <= end { // an empty range selects nothing
+						continue
 					}
 					end = start - (start-end-1)/step*step
 					for i := end; i <= start; i -= step {
